@@ -64,7 +64,7 @@ def step (s : St) (toks : List String) : St × String :=
         | some k => (s, s!"v={hexEncode ((lookup n (keyOf s k)).getD [])}")
         | none => (s, "bad-op")
       | "hash" | "commit" | "reopen" => (s, showRoot n)
-      | "cachelimit" => (s, "ok")
+      | "cachelimit" | "cap" | "gc" => (s, "ok")
       | "iter" => (s, showKV (toMap n))
       | "prove" =>
         match argHex? toks "k" with
